@@ -68,8 +68,13 @@ def index_bounded(idx, base, conds, defs, depth=0):
     if depth > 4:
         return False, None
     # (a) reduced modulo the indexed vector's own len()
-    if idx.get('k') == 'binary' and idx['op'] == '%' and _is_len_of(idx['r'], base):
-        return True, 'modulo own len()'
+    if idx.get('k') == 'binary' and idx['op'] == '%':
+        r = strip(idx['r'])
+        if _is_len_of(r, base):
+            return True, 'modulo own len()'
+        # .. or modulo an immutable local that was initialised with that len() (the slot vectors are never resized)
+        if r.get('k') == 'path' and r.get('res') == 'local' and r['id'] in defs and _is_len_of(defs[r['id']], base):
+            return True, 'modulo own len() (through a local)'
     # (b) clamped by min(_, len-1) under a non-empty guard
     if idx.get('k') == 'mcall' and idx['m'] == 'min' and (_is_len_minus_one(idx['a'][0], base) or _is_len_minus_one(idx['r'], base)):
         if _nonempty_guard(conds, base):
@@ -306,6 +311,32 @@ def check_L11(ctx, rep):
             rep.inst('L11.mean', 'mean: division %s' % ('guarded by count != 0' if ok else 'UNGUARDED'))
             if not ok:
                 rep.viol('L11', 'aggregators::mean', 'empty-division', 'sum / count is not guarded by count != 0', loc=cr.loc(n))
+
+    # mean accumulates in f64: every addition / summation in `mean` has the type f64 (or usize, the counter) - adding in the
+    # column's own type overflows for narrow integer columns or large values although the mean itself is representable
+    b = fns['mean']
+    n_acc = 0
+    for n, parents in walk(b['tree']):
+        ty = None
+        what = None
+        if n.get('k') in ('binary', 'assignop') and n.get('op') in ('+', '+=', '*'):
+            ty = cr.ty(n) if n.get('k') == 'binary' else cr.ty(n.get('l'))
+            what = 'addition'
+        c = callee(n) if n.get('k') in ('mcall', 'call') else None
+        if c and (cname(c).endswith('Iterator::sum') or cname(c).endswith('iter::Sum::sum') or cname(c).endswith('Iterator::product')):
+            ty = cr.ty(n)
+            what = 'Iterator::sum'
+        if what is None:
+            continue
+        n_acc += 1
+        ok = ty in ('f64', 'usize')
+        rep.inst('L11.mean', 'mean: %s in type %s' % (what, ty))
+        if not ok:
+            rep.viol('L11', 'aggregators::mean', 'accumulates-in-column-type:%s' % ty,
+                     '`mean` adds the inputs in the type `%s` instead of f64: the sum overflows (panic in debug builds, wrap-around in release) '
+                     'for inputs whose mean is representable' % ty, loc=cr.loc(n))
+    if n_acc == 0:
+        raise Broken('aggregators::mean: no accumulation found (fold with + / sum)')
 
     # not: yields a unit exactly when next() is None
     b = fns['not']
